@@ -1604,27 +1604,26 @@ Proof.
     { apply (list_source_entries lt lo GL). left. exact KL. }
     assert (Ky4 : kind_at (sh s4) y = Some KNamespace).
     { eapply kind_ext; [exact (l_ext _ _ L34)|]. unfold s3. rewrite put_kind. exact Kyn. }
-    destruct (plain_fields2 (obody ob) rec f [NM_ANN; NM_TAXA] s4 y KNamespace x ob RB (l_inv _ _ L34) (l_inv2 _ _ L34))
-      with (s' := s5) as [L45 KPy]; auto.
-    { eapply U_lt_ext; [exact (l_ext _ _ L34) | exact U3]. }
-    { unfold y. lia. }
-    { discriminate. }
-    { intros _. left. reflexivity. }
+    assert (U4 : (U s4 < f)%nat) by (eapply U_lt_ext; [exact (l_ext _ _ L34) | exact U3]).
+    assert (Hy4 : n0 <= y) by (unfold y; lia).
+    assert (NA4 : KNamespace <> KAnnSet) by discriminate.
+    assert (SK4 : is_annk KNamespace = true -> In NM_ANN [NM_ANN; NM_TAXA]) by (intros _; left; reflexivity).
+    assert (Fx4 : Forall (fun e : val * val => (exists p, fst e = P p) /\ vsrc (snd e)) (obody ob)).
     { eapply old_fields; [exact Hclosed | exact Hkeys | exact G | tauto]. }
+    assert (V24 : forall k v, In (k, v) (obody ob) -> existsb (val_eqb k) [NM_ANN; NM_TAXA] = false -> vsrc2 v).
     { intros k v IN NS. destruct (old_entry_vsrc2 x ob k v G IN) as [_ X]; [|exact X].
       intros [_ C]. subst k. simpl in NS. discriminate NS. }
-    { apply (proj1 (l_ext2 _ _ L34)). exact Ix3. }
+    assert (Ix4 : In (x, y) (sc s4)) by (apply (proj1 (l_ext2 _ _ L34)); exact Ix3).
+    destruct (plain_fields2 (obody ob) rec f [NM_ANN; NM_TAXA] s4 y KNamespace x ob RB (l_inv _ _ L34) (l_inv2 _ _ L34)
+                U4 Hy4 Ky4 NA4 SK4 Fx4 V24 Ix4 G (fun e I => I) s5 LF) as [L45 KPy].
     assert (L35 : Loop2 s3 s5) by (eapply loop2_trans; eassumption).
     assert (L56 : Loop2 s5 s6).
-    { eapply dcaf2 with (kd := KNamespace) (sob := ob); try eassumption.
-      - exact (l_inv _ _ L45).
-      - exact (l_inv2 _ _ L45).
-      - eapply U_lt_ext; [exact (l_ext _ _ L35) | exact U3].
-      - destruct (l_ext _ _ L35) as [LL _]. unfold y. lia.
-      - eapply kind_ext; [exact (l_ext _ _ L45) | exact Ky4].
-      - reflexivity.
-      - apply (proj1 (l_ext2 _ _ L35)). exact Ix3.
-      - rewrite KO. reflexivity. }
+    { assert (U5 : (U s5 < f)%nat) by (eapply U_lt_ext; [exact (l_ext _ _ L35) | exact U3]).
+      assert (Hd5 : n0 <= y < hlen (sh s5)) by (destruct (l_ext _ _ L35) as [LL _]; unfold y; lia).
+      assert (Ky5 : kind_at (sh s5) y = Some KNamespace) by (eapply kind_ext; [exact (l_ext _ _ L45) | exact Ky4]).
+      assert (Ix5 : In (x, y) (sc s5)) by (apply (proj1 (l_ext2 _ _ L35)); exact Ix3).
+      assert (AK5 : is_annk (okind ob) = true) by (rewrite KO; reflexivity).
+      exact (dcaf2 rec f s5 y x KNamespace ob RB (l_inv _ _ L45) (l_inv2 _ _ L45) U5 Hd5 Ky5 eq_refl Vs Ix5 G AK5 s6 DC). }
     assert (L36 : Loop2 s3 s6) by (eapply loop2_trans; eassumption).
     assert (F03 : Ext2 s s3) by (eapply ext2_trans'; [|exact F1 | exact F13]; lia).
     split; [exact (l_inv2 _ _ L36)|]. split; [|split].
